@@ -7,7 +7,7 @@ from jaqalpaq.core.algorithm import fill_in_let, expand_macros
 from jaqalpaq.core.algorithm.fill_in_map import fill_in_map
 
 from jaqalpaq.core.circuitbuilder import build
-from jaqalpaq.error import JaqalError
+from jaqalpaq.error import JaqalError, nesting_guard
 
 
 def parse_jaqal_file(
@@ -57,6 +57,7 @@ def parse_jaqal_file(
         )
 
 
+@nesting_guard
 def parse_jaqal_string(
     jaqal,
     override_dict=None,
@@ -159,6 +160,7 @@ def parse_jaqal_file_header(filename, return_usepulses=False):
         return parse_jaqal_string_header(fd.read(), return_usepulses=return_usepulses)
 
 
+@nesting_guard
 def parse_jaqal_string_header(jaqal, return_usepulses=False):
     """Parse the header of a string written in Jaqal into core types.
 
